@@ -57,6 +57,9 @@ class Snapping(LaplaceTruncated):
 
     @classmethod
     def _check_epsilon_delta(cls, epsilon, delta):
+        if not delta == 0:
+            raise ValueError("Delta must be zero")
+
         epsilon, delta = super()._check_epsilon_delta(epsilon, delta)
 
         machine_epsilon = np.finfo(float).epsneg
